@@ -2,6 +2,7 @@ import Dashu.Driver.Loop
 import Dashu.Model.Cross.Ord
 import Dashu.Model.Cross.Oracle
 import Dashu.Model.Cross.Hash
+import Dashu.Model.Cross.Mersenne
 /-
   Driver of group `cross` (C14).
 
@@ -193,15 +194,26 @@ def dispatch : Dispatch := fun _W op args =>
         pure (verdict (ordStr m) m2 (some spec))
       else pure (verdict (ordStr m) none none)
   | "numhash", [a] => do
+    -- model: every FixedMersenneInt operation mirrored (`numHashFeedM`); spec: the arithmetic
+    -- description `numHashFeed` (equal by `num_hash_mirrored`)
     let x ← parseNum a
-    pure (ok (feedStr (numHashFeed x)))
+    match numHashFeedM x with
+    | none => pure (panic "Undocumented(inv-unwrap)")
+    | some m =>
+      if m == numHashFeed x then pure (ok (feedStr m))
+      else pure (ok (feedStr m) ++ " !model-spec-mismatch spec=" ++ feedStr (numHashFeed x))
   | "hasheq", [a, b] => do
     let x ← parseNum a; let y ← parseNum b
-    let m := numHashFeed x == numHashFeed y
-    -- SPEC: equal values feed the same sequence (`num_hash_value`)
-    if small x y && XVal.cmp x.value y.value == some .eq && !m then
-      pure (ok "false" ++ " !model-spec-mismatch spec=true")
-    else pure (ok (boolStr m))
+    match numHashFeedM x, numHashFeedM y with
+    | some fx, some fy =>
+      let m := fx == fy
+      -- SPEC: equal values feed the same sequence (`num_hash_value_mirrored`)
+      if small x y && XVal.cmp x.value y.value == some .eq && !m then
+        pure (ok "false" ++ " !model-spec-mismatch spec=true")
+      else if fx != numHashFeed x || fy != numHashFeed y then
+        pure (ok (boolStr m) ++ " !model-spec-mismatch mirrored-feed-differs")
+      else pure (ok (boolStr m))
+    | _, _ => pure (panic "Undocumented(inv-unwrap)")
   | "fdecode", [a] => do
     let x ← parseNum a
     match x with
